@@ -404,7 +404,7 @@ fn run_hist(args: &[&str]) -> Option<String> {
         "req" => run_request(e, calls[n].1, bufs[n].bytes(), view_before, 0, mem::Place::EndGuard),
         _ => run_response(e, calls[n].1, bufs[n].bytes(), view_before, 0, mem::Place::EndGuard),
     };
-    Some(format!("pre={} vb={} reused=[{}] fresh=[{}]", if out.is_empty() { "-" } else { &out }, view_before, probe_obs, fresh))
+    Some(format!("{} ;; {} ;; pre={} vb={}", probe_obs, fresh, if out.is_empty() { "-" } else { &out }, view_before))
 }
 
 fn class_table() -> String {
@@ -509,7 +509,7 @@ fn run_case(line: &str) -> Option<String> {
             let arena = mem::ByteArena::new(&b, mem::Place::EndGuard, 0);
             let buf = arena.bytes();
             let mut parts = Vec::new();
-            for (name, e) in [("plain", Entry::Plain), ("cfg", Entry::Cfg), ("plainu", Entry::PlainUninit), ("cfgu", Entry::CfgUninit)] {
+            for (_name, e) in [("plain", Entry::Plain), ("cfg", Entry::Cfg), ("plainu", Entry::PlainUninit), ("cfgu", Entry::CfgUninit)] {
                 let (acap, ucap) = match e {
                     Entry::Plain | Entry::Cfg => (cap, 0),
                     _ => (2, cap),
@@ -519,11 +519,48 @@ fn run_case(line: &str) -> Option<String> {
                 } else {
                     run_response(e, cfg, buf, acap, ucap, mem::Place::EndGuard)
                 };
-                parts.push(format!("{}=[{}]", name, o));
+                parts.push(o);
             }
-            Some(parts.join(" "))
+            Some(parts.join(" ;; "))
         }
         "hist" => run_hist(&t[1..]),
+        "split" => {
+            // every prefix of the buffer, same kind / config / capacity
+            let k = *t.get(1)?;
+            let (head, hexs): (Vec<&str>, &str) = match k {
+                "req" | "resp" => (vec![*t.get(2)?, *t.get(3)?], *t.get(4)?),
+                "hdrs" => (vec![*t.get(2)?], *t.get(3)?),
+                "chunk" => (vec![], *t.get(2)?),
+                _ => return None,
+            };
+            let b = unhex(hexs)?;
+            let mut parts = Vec::with_capacity(b.len() + 1);
+            for cut in 0..=b.len() {
+                let hx = hex(&b[..cut]);
+                let mut args: Vec<&str> = head.clone();
+                args.push(&hx);
+                parts.push(run_basic(k, &args, mem::Place::EndGuard, 0)?);
+            }
+            Some(parts.join(" ;; "))
+        }
+        "cfgpair" => {
+            let k = *t.get(1)?;
+            let a = run_basic(k, &[*t.get(2)?, *t.get(4)?, *t.get(5)?], mem::Place::EndGuard, 0)?;
+            let b = run_basic(k, &[*t.get(3)?, *t.get(4)?, *t.get(5)?], mem::Place::EndGuard, 0)?;
+            Some(format!("{} ;; {}", a, b))
+        }
+        "hrel" => {
+            let cap = *t.get(1)?;
+            let h = unhex(t.get(2)?)?;
+            let mut rq = b"GET / HTTP/1.1\r\n".to_vec();
+            rq.extend_from_slice(&h);
+            let mut rs = b"HTTP/1.1 200 OK\r\n".to_vec();
+            rs.extend_from_slice(&h);
+            let a = run_basic("hdrs", &[cap, &hex(&h)], mem::Place::EndGuard, 0)?;
+            let b = run_basic("req", &["0", cap, &hex(&rq)], mem::Place::EndGuard, 0)?;
+            let c = run_basic("resp", &["0", cap, &hex(&rs)], mem::Place::EndGuard, 0)?;
+            Some(format!("{} ;; {} ;; {}", a, b, c))
+        }
         "scan" => {
             let be: u8 = t.get(1)?.parse().ok()?;
             let cl: u8 = t.get(2)?.parse().ok()?;
